@@ -374,10 +374,17 @@ func checkCli(c CliCase) error {
 	for _, m := range c.stream() {
 		input += ref.Write(m) + "\n"
 	}
+	toFile := len(c.Names)%3 == 0 // a third of the cases: result written with -o file
+	if toFile {
+		args = append(args, "-o", "pruned.nw")
+	}
 	r := cli.Run(dir, input, args...)
 	ctx := fmt.Sprintf(" (gotree %v on\n%s)", args, input)
 	if r.Code != 0 || r.TimedOut {
 		return fmt.Errorf("command failed with status %d: %s%s", r.Code, r.Stderr, ctx)
+	}
+	if toFile {
+		r.Stdout = cli.Read(dir, "pruned.nw")
 	}
 	lines := strings.Split(trim(r.Stdout), "\n")
 	if len(lines) != len(c.stream()) {
